@@ -219,6 +219,8 @@ Fixpoint call_builtin (k : nat) (ev : nat -> val -> positive -> M val) (d : nat)
         end
       else if str_eqb name (s_ "depth!") then   (* harness builtin, raw *)
         ret (VInt (Z.of_nat d))
+      else if str_eqb name (s_ "cancel!") then  (* harness builtin, raw: cancels the context of this evaluation *)
+        fun st => (Ok VNil, set_cancelled st)
       else
         match alookup name builtin_table with
         | None => lift (Panic (s_ "unregistered builtin"))
@@ -242,6 +244,20 @@ Fixpoint eval (n : nat) (d : nat) (ast : val) (env : positive) {struct n} : M va
   | S n' => eval_step (eval n') (eval n') (call_builtin n' (eval n')) n' d ast env
   end.
 
+(** EVAL given a context: the poll at the top of every iteration of the evaluation loop
+    (mal.go: select { case <-ctx.Done(): return timeout error; default: }).  [eval] above is EVAL
+    with a context that is never cancelled; both share every other line (eval_step). *)
+Definition timeout_error (ast : val) : val :=
+  new_lisp_error (VGoErr (s_ "timeout while evaluating expression")) (get_position ast).
+
+Fixpoint eval_c (n : nat) (d : nat) (ast : val) (env : positive) {struct n} : M val :=
+  match n with
+  | O => fun st => (OutOfFuel, st)
+  | S n' => fun st =>
+      if cancelled st then (Err (timeout_error ast), st)
+      else eval_step (eval_c n') (eval_c n') (call_builtin n' (eval_c n')) n' d ast env st
+  end.
+
 (** EVAL with a Stepper installed: the debugger section runs at every entry of EVAL, and the
     loop `continue`s become fresh EVAL calls (`if Stepper != nil { return EVAL(ctx, ast, env) }`),
     which therefore run the debugger section again.  The depth parameter is not maintained
@@ -261,7 +277,7 @@ Fixpoint dbg_pair (n : nat) : evalfn * evalfn :=
 Definition eval_dbg (n : nat) : evalfn := fst (dbg_pair n).
 
 (** the root scope: every builtin bound to itself *)
-Definition raw_builtins : list str := [s_ "eval"; s_ "trace!"; s_ "depth!"].
+Definition raw_builtins : list str := [s_ "eval"; s_ "trace!"; s_ "depth!"; s_ "cancel!"].
 Definition root_frame : frame :=
   mkFrame (map (fun n => (n, VBuiltin n)) (raw_builtins ++ map fst builtin_table)) None.
-Definition state0 : state := mkState (PositiveMap.add ROOT root_frame (PositiveMap.empty frame)) 2%positive 1 [] [] None.
+Definition state0 : state := mkState (PositiveMap.add ROOT root_frame (PositiveMap.empty frame)) 2%positive 1 [] [] None false.
